@@ -315,3 +315,141 @@ entry_filter_harness!(entry_filter_subview_ref_of_mut, &'static VC, |b| bit(b, 2
 entry_filter_harness!(entry_filter_subview_ref_of_optional, &'static VB, |b| bit(b, 1));
 entry_filter_harness!(entry_filter_subview_optional, Option<&'static VB>, |b| true);
 entry_filter_harness!(entry_filter_subviews_list, Views!(&'static VA, &'static mut VC), |b| bit(b, 0) && bit(b, 2));
+
+// ---------------------------------------------------------------------------------------------
+// parallel views (C09/C03): the real Archetype::par_view -> registry/sealed/par_view.rs.  The
+// rayon iterators are driven through rayon's public Producer interface (sequentially: Kani has
+// no threads), so what is checked is the column each parallel view walks, not the scheduling.
+mod par {
+    use super::*;
+    use rayon::iter::plumbing::{Producer, ProducerCallback};
+    use rayon::iter::IndexedParallelIterator;
+
+    pub trait Addr {
+        fn addr(self) -> usize;
+    }
+    impl<'a, T> Addr for &'a T {
+        fn addr(self) -> usize {
+            self as *const T as usize
+        }
+    }
+    impl<'a, T> Addr for &'a mut T {
+        fn addr(self) -> usize {
+            self as *mut T as usize
+        }
+    }
+    impl<'a, T> Addr for Option<&'a T> {
+        fn addr(self) -> usize {
+            match self {
+                Some(r) => r as *const T as usize,
+                None => 0,
+            }
+        }
+    }
+    impl<'a, T> Addr for Option<&'a mut T> {
+        fn addr(self) -> usize {
+            match self {
+                Some(r) => r as *mut T as usize,
+                None => 0,
+            }
+        }
+    }
+
+    /// walks a whole producer and reports (number of items, addresses of the first two)
+    pub struct Walk;
+    impl<I: Addr> ProducerCallback<I> for Walk {
+        type Output = (usize, [usize; 2]);
+        fn callback<P>(self, producer: P) -> Self::Output
+        where
+            P: Producer<Item = I>,
+        {
+            let mut n = 0usize;
+            let mut out = [0usize; 2];
+            for x in producer.into_iter() {
+                let a = x.addr();
+                if n < 2 {
+                    out[n] = a;
+                }
+                n += 1;
+            }
+            (n, out)
+        }
+    }
+
+    pub fn walk<I: Addr, It: IndexedParallelIterator<Item = I>>(it: It) -> (usize, [usize; 2]) {
+        it.with_producer(Walk)
+    }
+}
+
+/// `got` are the addresses of rows 0 and 1 of the column starting at `base` (element-wise: an
+/// array `==` is a memcmp loop)
+fn rows_of<T>(got: [usize; 2], base: *const T) -> bool {
+    got[0] == base as usize && got[1] == unsafe { base.add(1) } as usize
+}
+
+/// `&mut A, &mut C` in parallel over {A,B,C}: each parallel iterator walks its own column, so no
+/// two of them hand out the same cell
+#[kani::proof]
+#[kani::unwind(5)]
+fn view_par_mut_and_mut() {
+    let mut alloc = entity::Allocator::<V3>::new();
+    let (mut t, _) = full_table(&mut alloc);
+    let c = cols_full(&t);
+    let (pa, (pc, _)) = unsafe { t.par_view::<Views!(&mut VA, &mut VC), _, _, _>() };
+    let (na, aa) = par::walk(pa);
+    let (nc, ac) = par::walk(pc);
+    assert!(na == 2 && nc == 2, "C09: one parallel result per row");
+    assert!(rows_of(aa, c.a), "C09: par &mut A walks A's column");
+    assert!(rows_of(ac, c.c), "C09: par &mut C walks C's column (skipping B)");
+}
+
+/// an optional mutable parallel view of a PRESENT component consumes that column: the view after
+/// it reads its own column and never aliases the optional one
+#[kani::proof]
+#[kani::unwind(5)]
+fn view_par_optional_mut_present_then_later_component() {
+    let mut alloc = entity::Allocator::<V3>::new();
+    let (mut t, _) = full_table(&mut alloc);
+    let c = cols_full(&t);
+    let (pa, (pb, _)) = unsafe { t.par_view::<Views!(Option<&mut VA>, &mut VB), _, _, _>() };
+    let (na, aa) = par::walk(pa);
+    let (nb, ab) = par::walk(pb);
+    assert!(na == 2 && nb == 2, "C09: one parallel result per row");
+    assert!(rows_of(aa, c.a), "C09: par Option<&mut A> of a present component is Some(cell of A)");
+    assert!(rows_of(ab, c.b), "C09: the view after par Option<&mut A> walks its own column (no aliasing)");
+}
+
+/// same for an optional immutable parallel view
+#[kani::proof]
+#[kani::unwind(5)]
+fn view_par_optional_ref_present_then_later_component() {
+    let mut alloc = entity::Allocator::<V3>::new();
+    let (mut t, _) = full_table(&mut alloc);
+    let c = cols_full(&t);
+    let (pb, (pc, _)) = unsafe { t.par_view::<Views!(Option<&VB>, &mut VC), _, _, _>() };
+    let (nb, ab) = par::walk(pb);
+    let (nc, ac) = par::walk(pc);
+    assert!(nb == 2 && nc == 2);
+    assert!(rows_of(ab, c.b), "C09: par Option<&B> of a present component is Some(cell of B)");
+    assert!(rows_of(ac, c.c), "C09: the view after par Option<&B> walks its own column");
+}
+
+/// optional parallel views of an ABSENT component yield None per row and consume no column
+#[kani::proof]
+#[kani::unwind(5)]
+fn view_par_optional_absent() {
+    let mut alloc = entity::Allocator::<V3>::new();
+    let mut t = table(0b101);
+    unsafe { t.push(entity!(VA(kani::any()), VC(kani::any())), &mut alloc) };
+    unsafe { t.push(entity!(VA(kani::any()), VC(kani::any())), &mut alloc) };
+    let ca = t.components[0].0 as *const VA;
+    let cc = t.components[1].0 as *const VC;
+    let (pa, (pb, (pc, _))) = unsafe { t.par_view::<Views!(&VA, Option<&mut VB>, &mut VC), _, _, _>() };
+    let (na, aa) = par::walk(pa);
+    let (nb, ab) = par::walk(pb);
+    let (nc, ac) = par::walk(pc);
+    assert!(na == 2 && nb == 2 && nc == 2, "C09: one parallel result per row, also for absent optional views");
+    assert!(rows_of(aa, ca));
+    assert!(ab[0] == 0 && ab[1] == 0, "C09: par optional view is None exactly when the component is absent");
+    assert!(rows_of(ac, cc), "C09: an absent optional component consumes no column");
+}
